@@ -173,6 +173,22 @@ ADDED5 = {
 }
 for k, v in ADDED5.items():
     CHECKS[k]["text"] += v
+ADDED6 = {
+ "C01": " Round 6: DecodeAddress prepares its input as C02 requires (whole input, own prefixes, canonical input; total ASCII folding; no shadowed prefix case); functions taking or returning an address leave their arguments untouched.",
+ "C02": " Round 6 (shared with C01): classifier, packer and decode arms agree on version bytes and payload lengths; address operations leave their arguments untouched; the case-folding helper lowers every upper-case letter of the whole string.",
+ "C03": " Round 6: every symbol that is verified is the unmodified table value of an input character.",
+ "C05": " Round 6: derivation from a parsed key leaves the key untouched (C04's purity and memo clauses); a fixed-length digit buffer of a Base58 conversion grows by at least ln58/ln256 resp. ln256/ln58 per symbol.",
+ "C06": " Round 6: fixed-length digit buffers of the Base58 conversion are long enough (ratio test).",
+ "C07": " Round 6: fixed-length digit buffers of the Base58 conversion are long enough (K1/K2 >= 0.73219... decoding, >= 1.36565... encoding); hand-written case folding in bech32 touches upper-case letters only.",
+ "C10": " Round 6: the data pushes tested are txscript.PushedData results.",
+ "C11": " Round 6: the set-driven builder decides membership by an equality scan of the whole set.",
+ "C13": " Round 6: the hashed query that is merged with the decoded filter is sorted, at every call site of the merge.",
+ "C14": " Round 6: every store to the reduction range is the plain product of element count and M; a rebuilt filter owns its bytes.",
+ "C15": " Round 6: a key is never copied as a whole struct; no goroutine is handed key memory.",
+ "C20": " Round 6: no second Filter is built around the guarded state of a filter.",
+}
+for k, v in ADDED6.items():
+    CHECKS[k]["text"] += v
 CHECKS["C08"]["text"] = CHECKS["C08"]["text"].replace("For all 73 in-repo functions", "For all in-repo functions").replace("(5 named exceptions, each with a premise the prover still checks)", "(named exceptions, each with a premise the prover still checks)")
 
 CHECKS["C17"] = dict(
